@@ -324,6 +324,7 @@ func genHistSpec(p *histParams, c *Corpus, run int) *RunSpec {
 		k := ro.Intn(100)
 		stack := genStack(ro)
 		ctx := ro.Chance(1, 5)
+		ownCtx := !ctx && ro.Split("ownctx").Chance(1, 6) // the caller's own plain context, read after the call
 		reuse := reuseRun && ro.Chance(3, 4)
 		if ro.Split("gc").Chance(1, 600) {
 			ops = append(ops, Op{Kind: "GC"})
@@ -343,9 +344,9 @@ func genHistSpec(p *histParams, c *Corpus, run int) *RunSpec {
 				ops = append(ops, Op{Kind: "Convert", Doc: docFor(), Stack: stack, Ctx: ctx, Fault: f})
 			}
 		case k < 34:
-			ops = append(ops, Op{Kind: "Convert", Doc: docFor(), Stack: stack, Ctx: ctx, Reuse: reuse})
+			ops = append(ops, Op{Kind: "Convert", Doc: docFor(), Stack: stack, Ctx: ctx, CtxPlain: ownCtx, Reuse: reuse})
 		case k < 40:
-			ops = append(ops, Op{Kind: "PkgConvert", Doc: docFor(), Stack: stack, Ctx: ctx, Reuse: reuse})
+			ops = append(ops, Op{Kind: "PkgConvert", Doc: docFor(), Stack: stack, Ctx: ctx, CtxPlain: ownCtx, Reuse: reuse})
 		case k < 42:
 			// an instance of another configuration is created and used between two uses of ours
 			am := "any"
@@ -355,14 +356,16 @@ func genHistSpec(p *histParams, c *Corpus, run int) *RunSpec {
 			ac := genConfig(ro.Split("aux"), am)
 			if ro.Chance(1, 3) {
 				ac = Config{}
+			} else if ro.Chance(1, 2) {
+				ac = configVariant(ro.Split("aux-variant"), cfg, c15)
 			}
 			ops = append(ops, Op{Kind: "AuxConvert", Doc: docFor(), Stack: stack, Aux: &ac, Reuse: reuse})
 		case k < 56:
 			slot := ro.Intn(8)
-			ops = append(ops, Op{Kind: "Parse", Doc: docFor(), Tree: slot, Ctx: ctx, Reader: ro.Chance(1, 4)})
+			ops = append(ops, Op{Kind: "Parse", Doc: docFor(), Tree: slot, Ctx: ctx, CtxPlain: ownCtx, Reader: ro.Chance(1, 4)})
 			liveTrees = append(liveTrees, slot)
 		case k < 62:
-			ops = append(ops, Op{Kind: "ParseRender", Doc: docFor(), Stack: stack, Ctx: ctx, Reader: ro.Chance(1, 4), Reuse: reuse})
+			ops = append(ops, Op{Kind: "ParseRender", Doc: docFor(), Stack: stack, Ctx: ctx, CtxPlain: ownCtx, Reader: ro.Chance(1, 4), Reuse: reuse})
 		case k < 84:
 			if len(liveTrees) == 0 {
 				continue
